@@ -37,7 +37,7 @@ import (
 	"github.com/dolthub/dolt/go/zzverif/vsql"
 )
 
-const c35FaultRule = "per case: a database with a generated history (table t with 3-5 rows, optionally 200 bulk rows; 2-4 further commits on main and b1, each pushed to a file remote so the remote holds several table files). Transfer 1 (push path, in process): a destination directory store that already holds an older commit of main (so it shares part of the chunks; drawn: the direct parent, a deeper ancestor, or — with a force push — a commit of b1 that is not an ancestor) receives actions.Push of the newest commit of main, with the destination's *nbs.GenerationalNBS wrapped so that call #k of WriteTableFile (failing before the write, and — push path — in a second variant after the file was written), AddTableFilesToManifest or Commit returns an error — once, or (sticky variant, clone path only, because only that path retries) for that call and every later call of the same kind — for every k from 1 to the number of calls of that kind counted in the clean run. Transfer 2 (clone path): DoltDB.Clone from the remote directory into an empty wrapped directory store, same enumeration. Oracle: a sticky failure makes the transfer return an error; a transfer that returns an error leaves the destination (reopened without cache) with exactly the datasets it had before; a transfer that absorbs a one-time failure by retrying (the clone path retries table files) and reports success must end in the clean run's state; and the closure walk (types.WalkAddrsFromNomsValue) from every dataset head finds every address; the transfer retried without faults on the same directory succeeds and the destination's datasets equal those of the clean run (push: branch main at the pushed commit; clone: all of the source's datasets) and its closure walk passes. The enumeration over k is complete for each generated transfer (exhaustive within a case; cases are sampled). Non-trivial: a fault point strictly between the first table file write and the final root update, of a transfer whose destination already held part of the data or that moves at least two table files; distinct by history shape, transfer kind and fault point."
+const c35FaultRule = "per case: a database with a generated history (table t with 3-5 rows, optionally 200 bulk rows, table big with TEXT / BLOB / JSON cells drawn from the size classes inline, around the 2048-byte inline threshold, out of line and multi-chunk, one row at the start and one more in half of the later commits; 2-4 further commits on main and b1, each pushed to a file remote so the remote holds several table files). Transfer 1 (push path, in process): a destination directory store that already holds an older commit of main (so it shares part of the chunks; drawn: the direct parent, a deeper ancestor, or — with a force push — a commit of b1 that is not an ancestor) receives actions.Push of the newest commit of main, with the destination's *nbs.GenerationalNBS wrapped so that call #k of WriteTableFile (failing before the write, and — push path — in a second variant after the file was written), AddTableFilesToManifest or Commit returns an error — once, or (sticky variant, clone path only, because only that path retries) for that call and every later call of the same kind — for every k from 1 to the number of calls of that kind counted in the clean run. Transfer 2 (clone path): DoltDB.Clone from the remote directory into an empty wrapped directory store, same enumeration. Oracle: a sticky failure makes the transfer return an error; a transfer that returns an error leaves the destination (reopened without cache) with exactly the datasets it had before; a transfer that absorbs a one-time failure by retrying (the clone path retries table files) and reports success must end in the clean run's state; and the closure walk (types.WalkAddrsFromNomsValue) from every dataset head finds every address; the transfer retried without faults on the same directory succeeds and the destination's datasets equal those of the clean run (push: branch main at the pushed commit; clone: all of the source's datasets) and its closure walk passes. The enumeration over k is complete for each generated transfer (exhaustive within a case; cases are sampled). Non-trivial: a fault point strictly between the first table file write and the final root update, of a transfer whose destination already held part of the data or that moves at least two table files; distinct by history shape, transfer kind and fault point."
 
 var c35FaultAssumptions = []string{
 	"faults are errors returned by the destination's table-file store calls (connection-loss model); torn writes inside one call and crashes of the pushing process are not modelled here (C03/C05 cover the store's own crash atomicity)",
@@ -353,6 +353,13 @@ func c35FaultRun(rt *rapid.T, srv *vsql.Server, admin *vsql.Session, scratch str
 		vals = append(vals, fmt.Sprintf("(%d, 'bulk', %d, '%s')", 10000+i, i, strings.Repeat(fmt.Sprintf("k%d/", i), 14)))
 	}
 	x("INSERT INTO t VALUES " + strings.Join(vals, ", "))
+	x(gcBigTableDDL)
+	var wide []string
+	{
+		row, classes := gcBigRow(rt, "init_wide", 50, "init")
+		x("INSERT INTO big VALUES " + row)
+		wide = append(wide, classes...)
+	}
 	x("CALL dolt_commit('-Am', 'init')")
 	remoteDir := filepath.Join(c.base, "remote")
 	x(fmt.Sprintf("CALL dolt_remote('add', 'origin', 'file://%s')", remoteDir))
@@ -369,8 +376,12 @@ func c35FaultRun(rt *rapid.T, srv *vsql.Server, admin *vsql.Session, scratch str
 		}
 		x("CALL dolt_checkout('" + b + "')")
 		pk++
-		if rapid.IntRange(0, 3).Draw(rt, fmt.Sprintf("c%d_update", i)) == 0 {
+		if k := rapid.IntRange(0, 5).Draw(rt, fmt.Sprintf("c%d_kind", i)); k == 0 {
 			x(fmt.Sprintf("UPDATE t SET v = v + %d WHERE pk <= 2", pk))
+		} else if k >= 3 {
+			row, classes := gcBigRow(rt, fmt.Sprintf("c%d", i), pk, b)
+			x("INSERT INTO big VALUES " + row)
+			wide = append(wide, classes...)
 		} else {
 			x(fmt.Sprintf("INSERT INTO t VALUES (%d, '%s', %d, '%s')", pk, b, pk, strings.Repeat(fmt.Sprintf("%s%d.", b, pk), 10)))
 		}
@@ -478,6 +489,9 @@ func c35FaultRun(rt *rapid.T, srv *vsql.Server, admin *vsql.Session, scratch str
 	p2, i2 := c.enumerate(cloneTr, empty, false, rec, desc)
 	rec.Class(fmt.Sprintf("fault_points_per_case=%d", p1+p2), 1)
 	rec.Class("dest_holds="+olderKind, 1)
+	for _, cl := range wide {
+		rec.Class("wide:"+cl, 1)
+	}
 	_ = i1
 	_ = i2
 }
